@@ -355,6 +355,10 @@ var auxSamples = []struct {
 	{65280, []byte{0, 1, 2, ',', ':', '\\', 0xff, ' ', '"'}},
 	{65280, nil},
 	{65280, []byte("abc ")},
+	// generic lines carrying types that also have a native line kind
+	{16, []byte("\x05hello\x03abc")},
+	{15, []byte("\x00\x0a\x04mail\x03ext\x03net\x00")},
+	{33, []byte("\x00\x01\x00\x02\x01\xbb\x03srv\x03ext\x03net\x00")},
 	{65280, []byte(" x  ")},
 	{44, []byte{1, 1, 0xde, 0xad}},
 }
